@@ -90,6 +90,9 @@ def gen_case(rng, tier):
     if case["w1"].get("log_level") == "DEBUG" and "hash" not in case["dims"]:
         # the DEBUG log prints tables built from tag sets: always look at it under other hash seeds
         case["dims"] = sorted(case["dims"] + ["hash"])
+    if "\tHap" in case["w1"].get("pretext", "") and "hash" not in case["dims"]:
+        # haplotype tags are handled as sets too
+        case["dims"] = sorted(case["dims"] + ["hash"])
     if case["w1"].get("fmt") == "fa" and "buffer" not in case["dims"]:
         # FASTA output is where the stream buffer size matters: always vary it there
         case["dims"] = sorted(case["dims"] + ["buffer"])
